@@ -386,13 +386,8 @@ func (g *Gen) escapeVal(st *State, v Val, depth int) {
 		g.escapeVal(st, e, depth+1)
 	}
 	if v.Clo != nil {
-		for _, b := range v.Clo.Bindings {
-			if b.Ptr != nil && b.Ptr.Kind == pCell {
-				if old, ok := st.cells[b.Ptr.Cell]; ok {
-					g.setCell(st, b.Ptr.Cell, Val{T: g.vc.freshConst("esc", old.S), S: old.S, Ty: old.Ty})
-				}
-			}
-		}
+		// code that receives a closure can affect the captured variables only by invoking it: havoc what its body writes
+		g.havocCaptured(st, v.Clo)
 		return
 	}
 	if v.Ptr != nil {
